@@ -1,6 +1,7 @@
 import OpacusLean.Lemmas.GradSample
 import OpacusLean.Lemmas.GradSampleConv2
 import OpacusLean.Lemmas.GsmPairing
+import OpacusLean.Lemmas.HookCover
 /-! # C01 — per-sample gradients equal the gradient of each sample taken alone
 
 Part 1: adjoint identities.  For a layer whose forward on one sample is `fwd θ a` (linear in the
@@ -497,5 +498,32 @@ theorem mean_rescale (S : Static) (smul : Nat → B → B) (samp : Nat → A →
     contrib S smul samp Bn u p = samp u.m u.a (if S.lossMean then smul Bn u.b else u.b) p := rfl
 
 end hooks
+
+/-! ## Part 3: which modules are hooked (`hooked_cover`) -/
+section cover
+open Opacus.HookCover
+
+/-- **hooked_cover** (∀ module trees in which the own parameters of a DPRNN / DPLSTM / DPGRU wrapper are
+aliases of its cells' parameters, ∀ registries): the units `GradSampleModule` hooks – a module with a
+registered sampler serves its own trainable parameters, a module without one becomes a single
+functorch unit for its whole subtree and is not descended into, the RNN wrappers are walked through
+– together list exactly the trainable parameters of the model (a permutation of
+`module.parameters()`); with distinct parameter objects no two units share one.  So every trainable
+parameter gets its `grad_sample` from exactly one hooked unit. -/
+theorem hooked_cover (m : Mod) (h : wellFormed m = true) :
+    ((units m).flatten).Perm (allParams m)
+    ∧ ((allParams m).Nodup →
+        (∀ p, p ∈ allParams m ↔ ∃ u ∈ units m, p ∈ u) ∧ (units m).Pairwise List.Disjoint) :=
+  ⟨cover m h, units_partition m h⟩
+
+/-- non-vacuity: Sequential(Linear[0,1], Custom[2]{Linear[3]}, DPLSTM[4,5]{cell[5,4]}, frozen Linear) -/
+example :
+    let t : Mod := .node [] false false
+      [.node [0, 1] true false [], .node [2] false false [.node [3] true false []],
+       .node [4, 5] false true [.node [5, 4] true false []], .node [] true false []]
+    wellFormed t = true ∧ units t = [[0, 1], [2, 3], [5, 4]] ∧ allParams t = [0, 1, 2, 3, 4, 5] := by
+  decide
+
+end cover
 
 end Opacus.C01
